@@ -10,7 +10,7 @@ PID = "C03"
 TITLE = "Class bodies: member kinds, access levels and special members are right"
 THEOREM_FILE = "Props/C03.v"
 MODELLED = ("the access level attached to a member is proved on the regenerated block machine (access_in_force_partial); base clauses over "
-            "identifier-named bases (Parse/BaseClause.v) and field statements with specifiers, bit-fields and initialisers (Parse/Members.v) are modelled by hand, proved and tied differentially; member kinds, "
+            "identifier-named bases (Parse/BaseClause.v) and field statements with specifiers, bit-fields and initialisers (Parse/Members.v) and method tails with constructor initialiser lists (Parse/MethodTail.v) are modelled by hand, proved and tied differentially; member kinds, "
             "constructor/destructor/operator recognition, method qualifiers, bases and anonymous-id sharing live in the parser bulk and are "
             "decided by the AST-first class search")
 ASSUMPTIONS = []
@@ -188,10 +188,102 @@ def _rebase(t, base):
     return ('F', _rebase(t[1], base), t[2], t[3])
 
 
+MT_QUALS = [['const'], ['volatile'], ['override'], ['final'], ['&'], ['&&'], ['noexcept'], ['noexcept', '(', 'true', ')'],
+            ['noexcept', '(', 'f', '(', 'a', ',', '(', 'b', ')', ')', ')'], ['throw', '(', ')'], ['throw', '(', 'int', ',', 'Foo', ')']]
+MT_ENDS = [[';'], [';'], ['=', '0', ';'], ['=', 'delete', ';'], ['=', 'default', ';'], ['{', '}'], ['{', 'return', 'x', '[', '0', ']', ';', '}'],
+           [':', 'a', '(', '1', ')', '{', '}'], [':', 'a', '(', '1', ')', ',', 'b', '{', '2', ',', '(', '3', ')', '}', '{', 'f', '(', ')', ';', '}'],
+           [':', '::', 'B', '<', 'T', '>', '(', 'x', ')', ',', 'c', '(', ')', '...', '{', '}'], ['=', '1', ';'], ['=', '00', ';']]
+
+
+def real_method_end(tail):
+    """flags of the method `m` / constructor of struct S_ whose declaration ends with the given tail tokens"""
+    text = 'struct S_ { S_ ( int a ) ' + ' '.join(tail) + ' };'
+    try:
+        d = impl.parse_string(text)
+    except (impl.CxxParseError, AssertionError, RecursionError):
+        return ('err',)
+    ns = d.namespace
+    if len(ns.classes) != 1:
+        return ('other',)
+    c = ns.classes[0]
+    if len(c.methods) != 1 or c.fields or c.classes or c.typedefs:
+        return ('other',)
+    m = c.methods[0]
+    if m.has_trailing_return or m.raw_requires:
+        return ('other',)
+    val = lambda v: None if v is None else tuple(x.value for x in v.tokens)
+    return ('ok', (m.const, m.volatile, m.override, m.final, {None: 0, '&': 1, '&&': 2}[m.ref_qualifier], val(m.throw), val(m.noexcept),
+                   m.pure_virtual, m.deleted, m.default, m.has_body))
+
+
+def corr_method_ends(ctx, corr):
+    """the method-tail model (Parse/MethodTail.v) vs the flags the implementation reports for a constructor with that tail"""
+    from harness import decl
+    from harness.props import c02
+    rng = ctx.rng
+    cases = []
+    for _ in range(ctx.scale(900, 18000)):
+        quals = []
+        for _q in range(rng.choice([0, 0, 1, 2, 3, 4])):
+            quals += rng.choice(MT_QUALS)
+        end = list(rng.choice(MT_ENDS))
+        tail = quals + end
+        cases.append(tail)
+        if rng.random() < 0.3:
+            mt = c02.mutate(rng, tail)
+            cases.append([t for t in mt if t not in ('[', ']')] or [';'])
+    lines, nms = [], []
+    for tail in cases:
+        names = decl.Names()
+        lines.append([94] + decl.enc_tokens(tail + ['}', ';'], names))
+        nms.append(names)
+    outs = run_driver(lines)
+    for tail, o, names in zip(cases, outs, nms):
+        corr.cases += 1
+        if o[0] == 0:
+            i = 7
+
+            def opt(i):
+                if o[i] == 0:
+                    return None, i + 1
+                n = o[i + 1]
+                vals = tuple(names.rev[o[i + 2 + 2 * j + 1]] if o[i + 2 + 2 * j + 1] else impl.TT[o[i + 2 + 2 * j]] for j in range(n))
+                return vals, i + 2 + 2 * n
+            th, i = opt(i)
+            ne, i = opt(i)
+            fl = (bool(o[2]), bool(o[3]), bool(o[4]), bool(o[5]), o[6], th, ne, bool(o[i]), bool(o[i + 1]), bool(o[i + 2]), bool(o[i + 3]))
+            m = ('ok', fl, o[1])
+        else:
+            m = ('err', o[1])
+        r = real_method_end(tail)
+        key = "mtail:" + (m[0] if m[0] == 'ok' else 'err%d' % m[1]) + "/" + r[0]
+        corr.dist[key] = corr.dist.get(key, 0) + 1
+        msg = None
+        if m[0] == 'ok':
+            want_rest = 2 if m[1][10] else 3            # body: '}' ';' remain; otherwise ';' '}' ';'
+            if m[2] == want_rest and (m[1][10] or tail_has_semicolon_at(tail, m[2])):
+                if r[0] == 'err':
+                    msg = "model decodes the method tail but the implementation rejects it"
+                elif r[0] == 'ok' and r[1] != m[1]:
+                    msg = "model %s; implementation %s" % (m[1], r[1])
+        elif m[1] in (1, 2, 3) and r[0] == 'ok':
+            msg = "model rejects (code %d) but the implementation reports %s" % (m[1], r[1])
+        if msg:
+            corr.disagreements.append(dict(case=dict(kind='corr-mtail', tokens=tail), model=str(m)[:300], impl=str(r)[:300],
+                                           what="method tail `%s`: %s" % (' '.join(tail), msg)))
+
+
+def tail_has_semicolon_at(tail, rest):
+    """the token at which the model stopped is the ';' that ends the declaration"""
+    full = tail + ['}', ';']
+    return full[len(full) - rest] == ';'
+
+
 def correspond(ctx):
     corr = c05.correspond(ctx)
     corr_bases(ctx, corr)
     corr_fields(ctx, corr)
+    corr_method_ends(ctx, corr)
     corr.note += " | base clauses: extracted Parse/BaseClause.v vs class_decl.bases of parse_string on valid and mutated clauses (class keys struct / class / union)"
     return corr
 
